@@ -50,31 +50,54 @@ def build_programs(shapes, reqs):
     new_defs = [copy.deepcopy(universe.ENUM_E), copy.deepcopy(universe.STRUCT_IN)]
     new_defs[0]["values"].append({"name": "D", "value": 9})      # AddEnumMember (every family sees it)
     fams = []
-    k = 0
+    k = [0]
+
+    def family(pos, added_fields, req, t, label):
+        bn, inn, un = "B%d" % k[0], "I%d" % k[0], "U%d" % k[0]
+        k[0] += 1
+
+        def fam_defs(edit):
+            ifs = [F(1, "default", T("i32"), "x"), F(2, "optional", T("string"), "y")]
+            ufs = [F(1, "default", T("i32"), "p"), F(2, "default", T("string"), "q")]
+            bfs = [F(1, "default", T("i32"), "a"), F(2, "optional", T("string"), "b"),
+                   F(3, "default", T(inn), "n"), F(4, "default", T("list", T(inn)), "l"),
+                   F(5, "optional", T(un), "u"), F(6, "default", T("E"), "e"),
+                   F(7, "default", T("map", T("string"), T(inn)), "m")]
+            if edit:
+                {"top": bfs, "nested": ifs, "union": ufs}[pos].extend(copy.deepcopy(added_fields))
+            return [{"k": "struct", "name": inn, "fields": ifs}, {"k": "union", "name": un, "fields": ufs},
+                    {"k": "struct", "name": bn, "fields": bfs}]
+        old_defs.extend(fam_defs(False))
+        new_defs.extend(fam_defs(True))
+        fams.append({"name": bn, "pos": pos, "req": req, "type": t, "label": label,
+                     "host": {"top": bn, "nested": inn, "union": un}[pos]})
+
     for t in shapes:
         for req in reqs:
             for pos in POS:
                 if pos == "union" and req == "optional":
                     continue   # union members have no requiredness of their own
-                bn, inn, un = "B%d" % k, "I%d" % k, "U%d" % k
-                k += 1
-
-                def fam_defs(edit):
-                    ifs = [F(1, "default", T("i32"), "x"), F(2, "optional", T("string"), "y")]
-                    ufs = [F(1, "default", T("i32"), "p"), F(2, "default", T("string"), "q")]
-                    bfs = [F(1, "default", T("i32"), "a"), F(2, "optional", T("string"), "b"),
-                           F(3, "default", T(inn), "n"), F(4, "default", T("list", T(inn)), "l"),
-                           F(5, "optional", T(un), "u"), F(6, "default", T("E"), "e"),
-                           F(7, "default", T("map", T("string"), T(inn)), "m")]
-                    if edit:
-                        added = F(10, req if pos != "union" else "default", copy.deepcopy(t), "added")
-                        {"top": bfs, "nested": ifs, "union": ufs}[pos].append(added)
-                    return [{"k": "struct", "name": inn, "fields": ifs}, {"k": "union", "name": un, "fields": ufs},
-                            {"k": "struct", "name": bn, "fields": bfs}]
-                old_defs += fam_defs(False)
-                new_defs += fam_defs(True)
-                fams.append({"name": bn, "pos": pos, "req": req, "type": t,
-                             "host": {"top": bn, "nested": inn, "union": un}[pos]})
+                family(pos, [F(10, req if pos != "union" else "default", copy.deepcopy(t), "added")], req, t, "one")
+        # the added field declares an IDL default: new code reading old data must produce it (also inside
+        # list elements and map values)
+        if t["n"] in universe.SCALAR_DEFAULTS:
+            for req in reqs:
+                for pos in ("top", "nested"):
+                    family(pos, [F(10, req, copy.deepcopy(t), "added", universe.SCALAR_DEFAULTS[t["n"]])], req + "+default", t,
+                           "one-default")
+    # several fields added at once (a sequence of compatible edits); the string takes many lengths so that the
+    # unknown-field store meets every buffer fill level
+    lens = [{"a": "str:" + "x" * n} for n in list(range(0, 10)) + [15, 16, 17, 31, 33, 64]]
+    for pos in ("top", "nested"):
+        tag = F(10, "optional", T("string"), "added")
+        tag["vals"] = lens
+        family(pos, [tag, F(11, "optional", T("map", T("string"), T("i32")), "attrs"),
+                     F(12, "optional", T("list", T("i64")), "nums"), F(13, "optional", T("In"), "sub")],
+               "optional", T("string"), "multi")
+        tag2 = F(11, "optional", T("string"), "added")
+        tag2["vals"] = lens
+        family(pos, [F(10, "default", T("map", T("i32"), T("string")), "first"), tag2,
+                     F(12, "default", T("set", T("string")), "tags")], "optional", T("string"), "multi2")
     old = {"files": [{"path": "a.thrift", "namespaces": [{"lang": "go", "name": "evo"}], "defs": old_defs}]}
     new = {"files": [{"path": "a.thrift", "namespaces": [{"lang": "go", "name": "evo"}], "defs": new_defs}]}
     return old, new, fams
@@ -123,7 +146,7 @@ def run(ctx, args):
         for d in prog["files"][0]["defs"]:
             if d["k"] in ("struct", "union") and d["name"][0] in "BIU" and d["name"] != "In":
                 for fl in d["fields"]:
-                    if fl["name"] != "added":
+                    if fl["name"] not in ("added", "attrs", "nums", "sub", "first", "tags"):
                         fl["w"] = 1
     sc_old, sc_new = schemalib.schema_of(old), schemalib.schema_of(new)
     tsc, sidx, nfwd = merged_schema(sc_old, sc_new, fams)
